@@ -176,13 +176,26 @@ def derived_types(t):
     return _derived.get(t, [])
 
 
+def _emit(el):
+    """the text an accepted value is written as (unchecked serialisation): part of the verdict, so that a process-wide
+    memo of formatted values (4 and 4.0 sharing one entry) is an observable residue"""
+    o = call(el.to_string)
+    return o.value if o.ok else 'exc:' + o.exc
+
+
 def verdict_table(name):
-    """acceptance verdicts of one class: text values and attribute values (exception class or 'ok')"""
+    """acceptance verdicts of one class: text values and attribute values (exception class, or 'ok' + the text the
+    value is serialised as).  The probe order alternates between classes (numerically equal ints and floats are met in
+    both orders across a multi-class run), so an order-dependent residue shows against the pristine per-class run."""
     cls = impl.class_for(name)
     out = []
-    for v in value_alphabet():
+    flip = sum(map(ord, name)) % 2 == 1
+    alpha = value_alphabet()
+    if flip:
+        alpha = alpha[::-1]
+    for v in alpha:
         o = call(lambda: cls(v, xsd_check=False))
-        out.append(('text', repr(v), o.brief()))
+        out.append(('text', repr(v), o.brief(), _emit(o.value) if o.ok else None))
     kind, t = R.element_type(name)
     if kind == 'complex':
         try:
@@ -199,9 +212,10 @@ def verdict_table(name):
         for (an, at) in own + extra:
             if ':' in an:
                 continue
-            for v in related_values(at):
+            rv = related_values(at)
+            for v in (rv[::-1] if flip else rv):
                 o = call(lambda: cls(val, xsd_check=False, **{an.replace('-', '_'): v}))
-                out.append((an, repr(v), o.brief()))
+                out.append((an, repr(v), o.brief(), _emit(o.value) if o.ok else None))
     return out
 
 
